@@ -62,7 +62,31 @@ fn header<K: KeyT>(a: &Args, extra: Value) -> Value {
            "seed": a.num("seed",0), "x": extra})
 }
 
+/// TLC integers are 32-bit: clamp anything larger (e.g. a wrapped capacity) so that a corrupted
+/// state is still a readable trace line that the monitors can judge.
+fn clamp(v: &mut Value) {
+    match v {
+        Value::Number(n) => {
+            if let Some(u) = n.as_u64() {
+                if u > 2_000_000_000 {
+                    *v = json!(2_000_000_000u64);
+                }
+            } else if let Some(i) = n.as_i64() {
+                if i < -2_000_000_000 {
+                    *v = json!(-2_000_000_000i64);
+                }
+            }
+        }
+        Value::Array(a) => a.iter_mut().for_each(clamp),
+        Value::Object(o) => o.values_mut().for_each(clamp),
+        _ => {}
+    }
+}
+
 fn emit(out: &mut dyn Write, e: &Value) {
+    let mut e = e.clone();
+    clamp(&mut e);
+    let e = &e;
     serde_json::to_writer(&mut *out, e).unwrap();
     out.write_all(b"\n").unwrap();
     out.flush().unwrap();
